@@ -2,6 +2,8 @@
    prints whether the script is well nested and, per use, the declaration ordinal the declarative semantics (`specRun`)
    and the frame-store machine (`implRun`) bind it to. -/
 import UtapModel.Model.ScopeScript
+import UtapModel.Model.TypeSubst
+import UtapModel.Model.Sexp
 open UtapModel.Builder
 
 def parseEv (tok : String) : Option Ev :=
@@ -16,7 +18,48 @@ def parseEv (tok : String) : Option Ev :=
 def showB (l : List (Option Nat)) : String :=
   ",".intercalate (l.map (fun o => match o with | some n => toString n | none => "none"))
 
+/-! ### DOTTYPE: the type of a process member with the mapping's arguments substituted (Model/TypeSubst.lean)
+
+   `DOTTYPE\t<type or expression sexp>\t<name>=<sexp>\t<name>=<sexp>...`  (the pairs in the order the mapping is to be walked) →
+   the sexp after `expr_dot`'s rounds.  Identifiers are `(IDENTIFIER name)`; every other node is generic. -/
+open UtapModel UtapModel.TypeSubst in
+partial def toE (keys : List String) : Sexp → E
+  | .atom a => .atom a
+  | .list [.atom "IDENTIFIER", .atom n] => match keys.idxOf? n with | some i => .id i | none => .app (.atom "IDENTIFIER") (.atom n)
+  | .list [] => .atom "()"
+  | .list (h :: rest) => rest.foldl (fun f a => .app f (toE keys a)) (.app (.atom "#list") (toE keys h))
+
+open UtapModel UtapModel.TypeSubst in
+partial def ofE (keys : List String) (e : E) : String :=
+  -- uncurry: collect the operands of an application chain
+  let rec spine (e : E) (acc : List E) : E × List E :=
+    match e with
+    | .app f a => spine f (a :: acc)
+    | x => (x, acc)
+  match e with
+  | .id s => "(IDENTIFIER " ++ (keys[s]?.getD "?") ++ ")"
+  | .atom a => a
+  | .app _ _ =>
+    let (h, args) := spine e []
+    match h, args with
+    | .atom "#list", hd :: rest => "(" ++ " ".intercalate ((hd :: rest).map (ofE keys)) ++ ")"
+    | h, args => "(" ++ " ".intercalate ((h :: args).map (ofE keys)) ++ ")"
+
+open UtapModel UtapModel.TypeSubst in
+def dotTypeLine (fields : List String) : String :=
+  match fields with
+  | ty :: pairs =>
+    let kv := pairs.filterMap (fun p => match p.splitOn "=" with | k :: v :: rest => some (k, "=".intercalate (v :: rest)) | _ => none)
+    let keys := kv.map (·.1)
+    match Sexp.parse ty with
+    | none => "bad-sexp"
+    | some sx =>
+      let m := kv.filterMap (fun (k, v) => match Sexp.parse v, keys.idxOf? k with | some vx, some i => some (i, toE keys vx) | _, _ => none)
+      if m.length != kv.length then "bad-mapping" else ofE keys (dotTypeE m (toE keys sx))
+  | [] => "bad-op"
+
 def stepLine (line : String) : String :=
+  if line.startsWith "DOTTYPE\t" then dotTypeLine (((line.trimAsciiEnd.toString.splitOn "\t").drop 1)) else
   let toks := (line.trimAscii.toString.splitOn " ").filter (· ≠ "")
   match toks.mapM parseEv with
   | none => "bad-script"
